@@ -60,8 +60,8 @@ RULE = ("oracle: N in [1,12] Gaussian blobs A*exp(-sum((x-c)/sigma)^2/2), render
         "dtypes: rounded to nearest), 2-D shapes 40-200 px / 3-D 20-40 px per axis, sub-pixel centres "
         "(uniform; ~15 % of the coordinates on half / whole pixels; blobs at exactly the minimum distance "
         "from a border / from each other), every centre >= diameter from the border and >= 2 diameters "
-        "(per-axis scaled distance) from every other centre; dtypes uint8 (amplitude 50-250), uint16 "
-        "(250-60000), float32/float64 (preprocess off: 1e-3..1e5, on: 0.2..1e4); odd diameters, isotropic and "
+        "(per-axis scaled distance) from every other centre; dtypes uint8 (amplitude 50-250), uint16 / int32 "
+        "(250-60000), int16 (250-30000), float32/float64 (preprocess off: 1e-3..1e5, on: 0.2..1e4); odd diameters, isotropic and "
         "per axis: 2-D 7-15 with preprocess, 5-15 without; 3-D 7-11.  WITHOUT preprocess: per blob and per "
         "axis sigma in [0.6 px, 0.15*d] (0.13*d for d=5; 3-D 0.18*d), amplitudes within one image within a "
         "factor 1.5.  WITH preprocess (default): one width per image, sigma_a = kappa*d_a with one kappa "
@@ -127,7 +127,8 @@ ASSUMPTIONS = [
 MIN_NONTRIVIAL = 20
 TOL = 1e-9
 NAMES = ["z", "y", "x"]
-DT = {"uint8": np.uint8, "uint16": np.uint16, "float32": np.float32, "float64": np.float64}
+DT = {"uint8": np.uint8, "uint16": np.uint16, "float32": np.float32, "float64": np.float64,
+      "int16": np.int16, "int32": np.int32}
 
 
 def init(ctx):
@@ -189,8 +190,11 @@ def _amplitudes(rng, dtype, pre, n):
     if dtype == "uint8":
         amax = rng.uniform(60, 250)
         lo = 50.0
-    elif dtype == "uint16":
+    elif dtype in ("uint16", "int32"):
         amax = 10 ** rng.uniform(math.log10(300), math.log10(60000))
+        lo = 250.0
+    elif dtype == "int16":        # signed: half the gamut of uint16
+        amax = 10 ** rng.uniform(math.log10(300), math.log10(30000))
         lo = 250.0
     else:
         amax = 10 ** (rng.uniform(math.log10(0.25), 4) if pre else rng.uniform(-3, 5))
@@ -208,7 +212,7 @@ def gen_oracle(rng, i):
     nd = 3 if rng.random() < 0.22 else 2
     R = REGIME[nd]
     pre = rng.random() < 0.55
-    dtype = rng.choice(["uint8", "uint8", "uint16", "float32", "float64"])
+    dtype = rng.choice(["uint8", "uint8", "uint16", "float32", "float64", "int16", "int32"])
     dlo = R["dmin_pre"] if pre else R["dmin_raw"]
     if rng.random() < 0.6:
         diam = [_odd_between(rng, dlo, R["dmax"])] * nd
